@@ -646,7 +646,56 @@ def r13_lex_errors_reported(c, facts, rule='C13.R13'):
         c.ok(R, {'tokenize': 'an Err item is pushed onto the error list in its own iteration', 'sites': len(err_edges)})
 
 
+DISCARDING = {'ok', 'unwrap_or', 'unwrap_or_default', 'unwrap_or_else', 'map_or', 'map_or_else', 'or', 'or_else', 'is_ok', 'is_err', 'err', 'is_ok_and', 'is_err_and', 'iter', 'into_iter'}
+# sites that turn an anyhow::Error into a value today, with the reason each is harmless (frozen; a new site is reported)
+ANYHOW_DISCARDS = {
+    ('oal_client::lsp::Folder::eval', 'ok'): 'the error was logged as a pending diagnostic by Workspace::eval before it is turned into None',
+    ('oal_wasm::<WebLoader<\'_> as oal_compiler::module::Loader<anyhow::Error>>::compile', 'unwrap_or'): 'report() renders the located message; the fallback is the constant text of an internal error',
+    ('oal_wasm::<WebLoader<\'_> as oal_compiler::module::Loader<anyhow::Error>>::parse', 'unwrap_or'): 'same as compile',
+}
+
+
+def r22_errors_propagate(c, facts, rule='C13.R22'):
+    """an error value of the compiler (`Result<_, oal_compiler::errors::Error>`) is never turned into a default: no
+    `ok()`, `unwrap_or*`, `map_or*`, `or*`, `is_ok/is_err` on such a result anywhere in the workspace.  With
+    `compose_annotations(decl.annotations()).unwrap_or_default()` a malformed annotation on a function is dropped when the
+    function is applied: the CLI exits 0 and overwrites the target where it has to fail and leave it alone."""
+    import re
+    R = c.rule(rule, 'ERRORS-PROPAGATE: no compiler error is replaced by a default value (ok / unwrap_or* / map_or* / or* / is_ok on a Result<_, errors::Error>); the anyhow sites of the front ends are a frozen table')
+    n = seen_anyhow = 0
+    for fn in sorted(facts.fns.values(), key=lambda f: f.qname):
+        if not fn.mir:
+            continue
+        n += 1
+        for b, t in fn.calls():
+            cal = callee_of(t)
+            if not cal or not t['args']:
+                continue
+            d = P.strip(cal['def'])
+            if not d.startswith('std::result::Result::'):
+                continue
+            nm = d.split('::')[-1]
+            if nm not in DISCARDING:
+                continue
+            ty = t['args'][0].get('ty', '')
+            home = fn.qname.split('::{closure')[0]
+            inst = {'fn': fn.qname, 'combinator': nm, 'receiver': ty[:100], 'line': t.get('ln')}
+            if re.search(r'(?<!oal_syntax::)errors::Error>', ty) and 'oal_syntax::errors::Error' not in ty:
+                c.bad(R, '%s:compiler-error-discarded:%s' % (home, nm), '%s applies %s() to a %s (line %s): a compile or evaluation error becomes a default value and the run goes on - the CLI would exit 0 and write the target' % (fn.qname, nm, ty[:90], t.get('ln')), **inst)
+            elif 'anyhow::Error>' in ty:
+                seen_anyhow += 1
+                why = ANYHOW_DISCARDS.get((home, nm))
+                if why:
+                    c.ok(R, dict(inst, why=why))
+                else:
+                    c.bad(R, '%s:front-end-error-discarded:%s' % (home, nm), '%s applies %s() to a %s (line %s): a failure of the pipeline is turned into a value at a site that is not in the frozen table' % (fn.qname, nm, ty[:90], t.get('ln')), **inst)
+    c.floor(R, 'functions scanned', n, 600)
+    c.floor(R, 'known anyhow sites seen', seen_anyhow, 3)
+    c.ok(R, {'functions scanned': n, 'discarding combinators on compiler results': 0})
+
+
 def run(c, facts):
+    c.run(r22_errors_propagate, facts)
     c.run(r15_write_verbatim, facts)
     c.run(r14_written_on_success, facts)
     c.run(r13_lex_errors_reported, facts)
@@ -687,3 +736,6 @@ def run(c, facts):
 
 
 EXPLANATION += ' (R21) EVERY-ERROR (C15.R19 run here): every error logged by the load or the evaluation of a folder becomes a published diagnostic.'
+
+
+EXPLANATION += ' (R22) ERRORS-PROPAGATE: no Result<_, oal_compiler::errors::Error> is consumed by ok / unwrap_or* / map_or* / or* / is_ok anywhere in the workspace, and the three sites that turn an anyhow::Error into a value are a frozen table.'
